@@ -114,6 +114,11 @@ def plan(tier):
         for c in icfgs:
             add(f, kind="indentcfg", indent=c)
             add(f, kind="indentcfg", indent=c, variant="case")  # decisions of phase 4 that depend on spellings phase 6 normalises
+    # documented global options (docs/configuring_indent_rules.rst): indentation style and size for every rule
+    gfiles = (sorted(ex) + _rnd2.Random("global-options").sample(sorted(inputs), 200)) if tier == "thorough" else r.sample(sorted(ex), min(len(ex), 4)) + r.sample(sorted(inputs), 8)
+    for f in gfiles:
+        for g in ({"indent_style": "smart_tabs", "indent_size": 2}, {"indent_size": 4}):
+            add(f, kind="option", rule="global", options=g)
     for f in var_files:
         for vk in ("comment0", "dedent", "squeeze", "dedent_squeeze", "case", "pragma0"):
             add(f, kind="variant", variant=vk)
